@@ -257,7 +257,7 @@ impl Prop for P06 {
             _ => json!([]),
         };
         // -I: what has to fit is the argument after the substitution (one item used once, twice, with a prefix)
-        if scenario % 7 == 5 {
+        if scenario % 7 == 5 || idx % 8 == 5 {
             let (len, pre, times) = *rng.pick(&[(131071u64, 1u64, 1u64), (131071, 0, 1), (131070, 1, 1), (70000, 0, 2), (65535, 1, 2), (65535, 0, 2), (65536, 0, 2), (43690, 0, 3), (43691, 0, 3), (100, 3, 4), (131072, 0, 1)]);
             let groups = json!([{"count": 3, "len": 50}, {"count": 2, "len": len}, {"count": 3, "len": 10}]);
             return json!({"mode": "run", "groups": groups, "opts": [], "env": envs[rng.below(2)], "rlim": *rng.pick(&rlims), "init": {"count": 0, "len": 0},
